@@ -12,6 +12,7 @@ use crate::jws::JwsHeader;
 use crate::jwu::create_message;
 use crate::jwu::decode_b64;
 use crate::jwu::decode_b64_json;
+use crate::jwu::extract_b64;
 use crate::jwu::parse_utf8;
 use crate::jwu::validate_jws_headers;
 
@@ -361,6 +362,25 @@ impl Decoder {
 
     let payload = Self::expand_payload(detached_payload, data.payload.map(cow_str_into_bytes))?;
     let signatures = data.signatures;
+
+    // RFC 7797 section 3: the "b64" value MUST be the same for all signatures of one JWS.
+    // Signatures whose protected header cannot be decoded are reported individually by the iterator.
+    let mut b64_values = signatures
+      .iter()
+      .filter_map(|signature| {
+        signature
+          .protected
+          .as_deref()
+          .map(decode_b64_json::<JwsHeader>)
+          .transpose()
+          .ok()
+      })
+      .map(|protected| extract_b64(protected.as_ref()));
+    if let Some(first) = b64_values.next() {
+      if b64_values.any(|b64| b64 != first) {
+        return Err(Error::InvalidParam("b64"));
+      }
+    }
 
     Ok(JwsValidationIter {
       decoder: self,
